@@ -108,7 +108,7 @@ def main():
     cases = list(g.corpus_cases())
     for f in sorted(glob.glob(os.path.join(vplib.VERIF, "corpus", "C02", "*.json"))):
         cases.append(json.load(open(f)))
-    n = 1 if quick else 25
+    n = 1 if quick else 6
     for _ in range(700 * n):
         cases.append(freq_sweep_case(rng))
     for _ in range(500 * n):
@@ -216,8 +216,23 @@ def main():
 
 
 MANIFEST = {
-    "claimed": False,
-    "text": "",
-    "note": "",
+    "claimed": True,
+    "text": "Theorems (Coq on primitive binary64 floats through Flocq's PrimFloat bridge; for every configuration, every starting state "
+            "-- any kernel frequency -- and every list of controller operations with arbitrary f64 estimates/requests incl. NaN, inf, "
+            "subnormals, by induction over the list): every set_frequency argument is NaN or satisfies -M <= f <= M in the hardware order "
+            "(C02_set_frequency, from C02_clamp_range: f64::clamp maps NaN to NaN and everything else into [lo,hi]; its assertion fires "
+            "exactly when not lo <= hi, C02_clamp_panic_iff); freq_offset is the kernel value until the first set_frequency and a clamp "
+            "output afterwards (C02_freq_offset_state); the slew frequency min(slew_max, |change|/duration) is <= slew_max for every "
+            "request and duration when slew_max is not NaN (C02_slew_frequency, C02_min_bound); a slew is only started for a non-NaN request "
+            "and sets desired_freq = -freq*signum(request) (C02_slew_partial); time_update resets it to 0 (C02_slew_ends). The model is "
+            "compared bit for bit with the real controller on ~2000 histories per quick run (f64 sweep incl. specials, slews at slew_max +- 1 ulp).",
+    "note": "PARTIAL (named in Props/C02.v): (1) that the clamp argument (1+f)(1+c)-1 is not NaN for in-range f, M<1 and non-NaN c, i.e. "
+            "that no NaN is ever applied for finite inputs, is not proved (NaN propagation lemmas exist in scratch only); (2) |desired_freq| <= "
+            "slew_max needs exactness of *(+-1.0) and freq >= 0 for positive limits, not proved. Both are evaluated by the monitor on every "
+            "run. Trusted: Coq kernel+vm_compute; FloatAxioms specs of the primitive floats and the stdlib real-number axioms Flocq uses "
+            "(Print Assumptions: classic, sig_forall_dec, sig_not_dec, functional_extensionality_dep, Prim2SF/SF2Prim and *_spec axioms); "
+            "hand-written model coq/Model/Controller.v; the estimate of update_clock is an oracle input; f64::min on zeros of different sign "
+            "is unspecified in Rust and avoided by the generator; ntpd/src/daemon/clock.rs multiplies by 1e6 before adjtimex (one monotone "
+            "rounding, not modelled); the kernel's own frequency limit.",
     "design_ref": "DESIGN.md 3 C02",
 }
